@@ -686,6 +686,45 @@ func (s *Sim) opMisuse(op *Op) {
 		if after := s.W.Stats().Observers; after != before {
 			s.violate("C10", "pre.unchanged", "Observer.Register/obs_invalid/count", false, "a rejected observer registration changed Stats().Observers from %d to %d", before, after)
 		}
+	case "obs_locked_register":
+		// Registering an observer for a component type the world has not seen yet is a
+		// structure-changing operation (it registers the type): on a locked world it panics
+		// "without effect" (C07), so the same observer can be registered once the query is closed.
+		// A world of its own.
+		w := ecs.NewWorld(4)
+		ecs.NewMap1[T02](w).NewEntity(&T02{V: 1})
+		ev := []ecs.EventType{ecs.OnAddComponents, ecs.OnRemoveComponents, ecs.OnCreateEntity, ecs.OnSetComponents}[abs(op.N)%4]
+		var obs *ecs.Observer
+		switch abs(op.E) % 3 {
+		case 0:
+			obs = ecs.Observe(ev).For(ecs.C[T03]())
+		case 1:
+			obs = ecs.Observe(ev).With(ecs.C[T04]())
+		default:
+			obs = ecs.Observe(ev).For(ecs.C[T02]()).Without(ecs.C[T06]())
+		}
+		obs = obs.Do(func(ecs.Entity) {})
+		q := ecs.NewFilter0(w).Query()
+		s.C.Checks["lock.blocks"]++
+		s.C.Faults["misuse_obs_locked_register"]++
+		before := len(ecs.ComponentIDs(w))
+		p1, _ := s.call(func() { obs.Register(w) })
+		q.Close()
+		if !p1 {
+			s.violate("C07", "lock.blocks", "obs_locked_register/no_panic", false, "registering an observer for a component type that is new to the world did not panic on a locked world")
+			return
+		}
+		if after := len(ecs.ComponentIDs(w)); after != before || w.Stats().Observers != 0 {
+			s.violate("C07", "lock.blocks", "obs_locked_register/effect", false, "the rejected registration left %d component types (before %d) and %d observers", after, before, w.Stats().Observers)
+			return
+		}
+		if p2, val := s.call(func() { obs.Register(w) }); p2 {
+			s.violate("C07", "lock.blocks", "obs_locked_register/poisoned", false, "after its registration was rejected on the locked world, the observer cannot be registered on the unlocked world either: %v", val)
+			return
+		}
+		if p3, val := s.call(func() { obs.Unregister(w) }); p3 {
+			s.violate("C07", "lock.blocks", "obs_locked_register/unregister", false, "unregistering the observer afterwards panicked: %v", val)
+		}
 	case "query_dead_target", "query_foreign_relation":
 		// creating a typed query with an invalid relation argument must panic and must not
 		// leave the world locked (the lock-state oracle that follows every op checks that)
